@@ -458,15 +458,16 @@ func ruleLeaderExit() *Rule {
 	const id = "LEADER-EXIT-RESET"
 	return &Rule{
 		ID: id,
-		Text: "Every store that moves Raft.state to Follower, PreCandidate or Candidate at a point where the node may be Leader is followed, before the critical section ends, by operationManager.notifyLostLeaderShip (which answers every pending future with an error and empties both tables) and by installing a fresh operationManager. " +
-			"state := Shutdown in Stop is exempt (examined: a stopped node applies nothing and any conflicting entry arrives with a higher term through becomeFollower; see DESIGN C03).",
+		Text: "Every store that moves Raft.state to Follower, PreCandidate, Candidate or Shutdown at a point where the node may be Leader is followed, before the critical section ends, by operationManager.notifyLostLeaderShip (which answers every pending future with an error and empties both tables) and by installing a fresh operationManager, and the slot r.configurationResponseCh is set to nil. " +
+			"(Until D39 state := Shutdown in Stop was exempt, on the argument that a stopped node applies nothing and any conflicting entry arrives with a higher term through becomeFollower: wrong, becomeCandidate raises the term without clearing anything and Start() enters Follower directly.)",
 		Floor: 3,
 		Run: func(p *Program) []Obligation {
 			stateFld := p.Field("Raft.state")
 			omFld := p.Field("Raft.operationManager")
+			slotFld := p.Field("Raft.configurationResponseCh")
 			notify := p.Func("(*operationManager).notifyLostLeaderShip")
 			nom := p.Func("newOperationManager")
-			if stateFld == nil || omFld == nil || notify == nil || nom == nil {
+			if stateFld == nil || omFld == nil || slotFld == nil || notify == nil || nom == nil {
 				return missing(id, "Raft.state / notifyLostLeaderShip / newOperationManager")
 			}
 			var out []Obligation
@@ -488,7 +489,8 @@ func ruleLeaderExit() *Rule {
 				stateAtom := p.StateAtom()
 				owes := GhostAtom("resetOwedBy", append([]string{"no"}, sites...)...)
 				notified := GhostAtom("notified", "no", "yes")
-				sp := NewSpace(stateAtom, owes, notified)
+				slotOwes := GhostAtom("slotOwedBy", append([]string{"no"}, sites...)...)
+				sp := NewSpace(stateAtom, owes, notified, slotOwes)
 				a := NewAnalysis(p, sp)
 				L := enumIdx(stateAtom, "Leader")
 				pos := map[int]string{}
@@ -516,14 +518,19 @@ func ruleLeaderExit() *Rule {
 							}
 							pos[si] = p.InstrPos(in)
 							a.Observe("SITE "+key, f, in, st).Extra["target"] = target
-							if target == "Follower" || target == "PreCandidate" || target == "Candidate" {
+							if target == "Follower" || target == "PreCandidate" || target == "Candidate" || target == "Shutdown" {
 								// where the node may be leader, a reset is owed
-								return sp.Map(st, 1, func(pt, old int) uint32 {
+								owe := func(pt, old int) uint32 {
 									if sp.Val(pt, 0) == L {
 										return 1 << uint(si)
 									}
 									return 1 << uint(old)
-								})
+								}
+								return sp.Map(sp.Map(st, 1, owe), 3, owe)
+							}
+						case slotFld:
+							if c, ok := s.Val.(*ssa.Const); ok && c.IsNil() {
+								return sp.Assign(st, 3, 0)
 							}
 						case omFld:
 							if c, ok := s.Val.(*ssa.Call); ok && c.Common().StaticCallee() == nom {
@@ -546,13 +553,14 @@ func ruleLeaderExit() *Rule {
 					if what, ok := a.isSectionEnd(in); ok {
 						n := instrOrdinal(in, func(x ssa.Instruction) bool { _, ok := a.isSectionEndStatic(x); return ok })
 						a.Observe("END "+what+ordSuffix(n)+" in "+chainKey(f), f, in, st)
-						return sp.Assign(sp.Assign(st, 1, 0), 2, 0)
+						return sp.Assign(sp.Assign(sp.Assign(st, 1, 0), 2, 0), 3, 0)
 					}
 					return st
 				}
-				entry := sp.Filter(sp.Filter(sp.Top(), 1, 1), 2, 1)
+				entry := sp.Filter(sp.Filter(sp.Filter(sp.Top(), 1, 1), 2, 1), 3, 1)
 				a.RunFrame(NewRootFrame(root), entry)
 				owedAt := map[int][]string{}
+				slotOwedAt := map[int][]string{}
 				for _, o := range a.SortedObs() {
 					if !strings.HasPrefix(o.Key, "END") {
 						continue
@@ -560,6 +568,9 @@ func ruleLeaderExit() *Rule {
 					for i := 1; i <= len(sites); i++ {
 						if !sp.Filter(o.State, 1, 1<<uint(i)).IsEmpty() {
 							owedAt[i] = append(owedAt[i], strings.TrimPrefix(o.Key, "END ")+" ("+o.Pos+")")
+						}
+						if !sp.Filter(o.State, 3, 1<<uint(i)).IsEmpty() {
+							slotOwedAt[i] = append(slotOwedAt[i], strings.TrimPrefix(o.Key, "END ")+" ("+o.Pos+")")
 						}
 					}
 				}
@@ -576,16 +587,22 @@ func ruleLeaderExit() *Rule {
 					}
 					ob := Obligation{Rule: id, Construct: key, Pos: o.Pos, Facts: []string{"context: " + o.Chain, "target: " + o.Extra["target"], "state before: " + strings.Join(sp.Project(o.State, 0), " | ")}}
 					switch {
-					case o.Extra["target"] == "Shutdown" || o.Extra["target"] == "Leader":
-						ob.Verdict, ob.Detail = Discharged, "not a leader exit to a running role ("+o.Extra["target"]+")"
+					case o.Extra["target"] == "Leader":
+						ob.Verdict, ob.Detail = Discharged, "not a leader exit ("+o.Extra["target"]+")"
 					case len(owedAt[si]) > 0:
 						ob.Verdict = Violated
 						ob.Detail = "a leader can leave the leader role here without its pending futures being failed and its operation manager replaced before the critical section ends: a stale future can later be answered with an entry a new leader put at the same index"
 						for _, e := range owedAt[si] {
 							ob.Facts = append(ob.Facts, "section ends with the reset owed at: "+e)
 						}
+					case len(slotOwedAt[si]) > 0:
+						ob.Verdict = Violated
+						ob.Detail = "a leader can leave the leader role here with the future of a membership change still in the slot r.configurationResponseCh when the critical section ends: the apply loop answers whatever is in the slot when it applies ANY configuration entry, so the old future can later succeed with a configuration that does not contain the change it asked for"
+						for _, e := range slotOwedAt[si] {
+							ob.Facts = append(ob.Facts, "section ends with the slot not emptied at: "+e)
+						}
 					default:
-						ob.Verdict, ob.Detail = Discharged, "either the node cannot be leader here, or notifyLostLeaderShip + fresh operationManager follow in the same critical section"
+						ob.Verdict, ob.Detail = Discharged, "either the node cannot be leader here, or notifyLostLeaderShip + fresh operationManager + r.configurationResponseCh = nil follow in the same critical section"
 					}
 					out = append(out, ob)
 				}
